@@ -448,6 +448,8 @@ func serverFault(c *h.Case, kind string, pl bool, f fault) {
 	var wg sync.WaitGroup
 	var aFail, bFail, aOK, bOK int64
 	var firstA, firstB atomic.Value
+	var errMu sync.Mutex
+	distinctErrs := map[string]int{}
 	for g := 0; g < 4; g++ {
 		wg.Add(1)
 		go func(g int) {
@@ -461,6 +463,9 @@ func serverFault(c *h.Case, kind string, pl bool, f fault) {
 					if atomic.AddInt64(fail, 1) == 1 {
 						first.Store(err.Error())
 					}
+					errMu.Lock()
+					distinctErrs[fmt.Sprintf("client %c: %s", 'A'+g%2, err.Error())]++
+					errMu.Unlock()
 				} else {
 					atomic.AddInt64(ok, 1)
 				}
@@ -471,7 +476,7 @@ func serverFault(c *h.Case, kind string, pl bool, f fault) {
 		}(g)
 	}
 	time.Sleep(2 * time.Millisecond)
-	n := 3
+	n := r.Pick(3, 12)
 	for i := 0; i < n; i++ {
 		ferr := f.inject(e)
 		r.Eval(1)
@@ -485,7 +490,7 @@ func serverFault(c *h.Case, kind string, pl bool, f fault) {
 	wg.Wait()
 	r.Stat("sentinel_calls_during_faults", aOK+bOK+aFail+bFail)
 	if bFail > 0 {
-		c.Violation(sig("other-connection-affected"), fmt.Sprintf("%d of %d sentinel calls on another connection failed during the fault, first: %v", bFail, bFail+bOK, firstB.Load()), rep)
+		c.Violation(sig("other-connection-affected"), fmt.Sprintf("%d of %d sentinel calls on another connection failed during the fault, first: %v; all sentinel errors: %v", bFail, bFail+bOK, firstB.Load(), distinctErrs), rep)
 	}
 	if aFail > 0 && f.class != "conn" {
 		c.Violation(sig("other-calls-on-the-connection-affected"), fmt.Sprintf("%d of %d healthy calls on the injecting client failed during a %s-level fault, first: %v", aFail, aFail+aOK, f.class, firstA.Load()), rep)
